@@ -337,7 +337,66 @@ def run(repo: Repo, chk: Check, thorough: bool = False) -> None:
            'nothing makes sure the package was processed: `a.py: from pkg.sub import K` listed before `pkg` processes pkg.sub on demand before '
            'pkg/__init__.py, so `__docformat__ = "plaintext"` of the package is not known yet and the module and class docstrings of pkg.sub are parsed '
            'with the default format - a `.. raw:: html` line of a plain-text docstring becomes a <script> element', pm.loc)
-    chk.require('R10.7', 2)
+    # ... and the format is a fact about where the docstring is WRITTEN: it must not be read through a field that Documentable.reparent rewrites
+    # when the object is re-exported (a function written in a plaintext module and published by a reStructuredText package keeps its format)
+    gd = repo.func('pydoctor.epydoc2stan._get_docformat')
+    objp = gd.params()[0].arg
+    rp_ = repo.func('pydoctor.model.Documentable.reparent')
+    cfr = CFG(rp_)
+    moved_stores = [(t.attr, n) for n in rp_.walk() if isinstance(n, ast.Assign) for t in n.targets if isinstance(t, ast.Attribute) and dotted(t.value) == 'self']
+    moved = {a_ for a_, _n in moved_stores}
+
+    def _fields_behind(attr: str) -> Set[str]:
+        """The instance fields a read of <obj>.<attr> consults (a Documentable property is followed one level)."""
+        out_ = {attr}
+        for g in repo.funcs.values():
+            if g.cls is not None and g.name == attr and g.cls.qn == 'pydoctor.model.Documentable' and \
+                    any(isinstance(d, ast.Name) and d.id == 'property' for d in g.node.decorator_list):
+                out_ |= {x.attr for x in g.walk() if isinstance(x, ast.Attribute) and dotted(x.value) == 'self'}
+        return out_
+
+    def _saved_before_move(attr: str) -> bool:
+        """reparent() assigns self.<attr> only from the pre-move module: the value reads a field the move rewrites, and is taken before that rewrite."""
+        sts = [n for a_, n in moved_stores if a_ == attr]
+        if not sts:
+            return False
+        for n in sts:
+            src_fields = {x.attr for x in ast.walk(n.value) if isinstance(x, ast.Attribute) and dotted(x.value) == 'self'}
+            src_fields = set().union(*[_fields_behind(a_) for a_ in src_fields]) if src_fields else set()
+            rew = [m for a_, m in moved_stores if a_ in src_fields and a_ != attr]
+            # the save cannot come after the rewrite: it is not reachable from it
+            if not rew or any(id(cfr.stmt_of(n)) in cfr.reachable(cfr.stmt_of(m), no_exc=True) for m in rew):
+                return False
+            # and only once: a second move must not overwrite it with the intermediate module
+            if not any((isinstance(t, ast.Compare) and isinstance(t.ops[0], ast.Is) and pol and norm(t.left) == f'self.{attr}' and norm(t.comparators[0]) == 'None') or
+                       (norm(t) == f'self.{attr}' and not pol) for t, pol in cfr.dominating_tests(n)):
+                return False
+        return True
+
+    # the expression whose .docformat is the module's own format
+    from ..util import values_of as _vo
+    mods = [x.value for x in gd.walk() if isinstance(x, ast.Attribute) and x.attr == 'docformat' and not (isinstance(x.value, ast.Attribute) and x.value.attr == 'options')]
+    if not mods:
+        raise AnalysisError('R10.7: _get_docformat no longer reads <module>.docformat')
+    alts: List[ast.AST] = []
+    for m_ in mods:
+        for v_ in (_vo(gd, m_.id) if isinstance(m_, ast.Name) else [m_]):
+            alts.append(v_)
+    bad7 = None
+    for v_ in alts:
+        first = v_.values[0] if isinstance(v_, ast.BoolOp) and isinstance(v_.op, ast.Or) else v_
+        if not (isinstance(first, ast.Attribute) and isinstance(first.value, ast.Name) and first.value.id == objp):
+            bad7 = f'`{norm(v_)}` is not a field of the object'
+            continue
+        fields = _fields_behind(first.attr)
+        clash = sorted(fields & moved)
+        if clash and not all(_saved_before_move(a_) for a_ in clash):
+            bad7 = f'the format is read through `{norm(first)}`, i.e. {clash}, which Documentable.reparent() points at the re-exporting module'
+    chk.ob('R10.7', 'pydoctor.epydoc2stan._get_docformat :: the format of a docstring does not follow a re-exported object', bad7 is None,
+           f'read through {[norm(v_) for v_ in alts]}: a field reparent() leaves alone, or sets once to the module the object is moved out of' if bad7 is None else
+           bad7 + ': the docstring of a function written in a `__docformat__ = "plaintext"` module and listed in the `__all__` of its package is parsed with '
+           'the package\'s format - `.. raw:: html` in it becomes a <script> element, *words* become <em>', gd.loc)
+    chk.require('R10.7', 3)
 
     # ------------------------------------------------------------------ R10.8
     # a catch-all handler that contains a rendering failure must not fail itself: when it hands a parameter of the enclosing function
